@@ -124,7 +124,8 @@ for _tier, _n in (("quick", 50), ("thorough", 1000)):
 for _tier, _n in (("quick", 8), ("thorough", 160)):
     FLOORS[_tier].update({"eval:concurrent_equals_alone": int(0.4 * 11 * _n), "concurrent:project_grid_rendezvous_rounds": int(0.5 * _n),
                           "concurrent:rendezvous_met": int(0.4 * _n), "concurrent:project_grid_plain_rounds": int(0.5 * _n),
-                          "concurrent:project_grid_shared_inputs_rounds": int(0.5 * _n), "concurrent:convexhull_mask_rounds": int(0.5 * _n)})
+                          "concurrent:project_grid_shared_inputs_rounds": int(0.5 * _n), "concurrent:convexhull_mask_rounds": int(0.5 * _n),
+                          "concurrent:plain_rounds_with_yield_injection": int(0.2 * _n), "yields_injected": 20 * _n})
 JOBS = {"quick": 1, "thorough": 8}
 CASE_TIMEOUT_S = 300
 
@@ -1874,8 +1875,12 @@ def _concurrent_case(run, verde, make_hull, index, rng):
         run.count("concurrent:rendezvous_met" if all(w.waited for w in waiting) else "concurrent:rendezvous_timed_out")
         report("project_grid", "rendezvous", outcomes, alone)
         # (b) plain rounds, no barrier
-        outcomes = core.run_threads([(lambda k=k: verde.project_grid(grids[k], plain[k], method=method, antialias=False)) for k in range(n_threads)], rounds=2)
+        # in half of the cases with GIL hand-offs injected at random statement starts inside the verde sources (races a few statements wide)
+        inject = 0.25 if index % 2 == 0 else 0.0
+        outcomes = core.run_threads([(lambda k=k: verde.project_grid(grids[k], plain[k], method=method, antialias=False)) for k in range(n_threads)], rounds=2,
+                                    yield_probability=inject, seed=index)
         run.count("concurrent:project_grid_plain_rounds")
+        run.count("concurrent:plain_rounds_with_yield_injection" if inject else "concurrent:plain_rounds_without_yield_injection")
         report("project_grid", "plain", outcomes, alone)
         run.count("concurrent:method_%s:%d_threads" % (method, n_threads))
         # (c) the same grid object and projection shared by all threads
@@ -1891,8 +1896,10 @@ def _concurrent_case(run, verde, make_hull, index, rng):
             clouds.append((dx, dy))
             queries.append((qx, qy))
             masks_alone.append(_mask_call(run, verde, (dx, dy), coordinates=(qx, qy)))
-        outcomes = core.run_threads([(lambda k=k: verde.convexhull_mask(clouds[k], coordinates=queries[k])) for k in range(n_threads)], rounds=2)
+        outcomes = core.run_threads([(lambda k=k: verde.convexhull_mask(clouds[k], coordinates=queries[k])) for k in range(n_threads)], rounds=2,
+                                    yield_probability=inject, seed=index + 1000)
         run.count("concurrent:convexhull_mask_rounds")
+        run.count("yields_injected", getattr(core.run_threads, "yields_injected", 0) - run.counters.get("yields_injected", 0))
         outcomes = [(r, None if isinstance(e, (_STATE["QhullError"], ValueError)) and masks_alone[k] is None else e) if e is not None else (r, e)
                     for k, (r, e) in enumerate(outcomes)]
         report("convexhull_mask", "plain", [(r, e) for (r, e) in outcomes if not (r is None and e is None)],
